@@ -284,6 +284,15 @@ PINNED = [
 ]
 
 
+# a hot loop: thousands of identical calls, then one with another type.  The query limit counts distinct traces, so the rare call
+# must still reach the stub.
+PINNED.append(
+    {"name": "vfm01_hot_loop", "seed": "hot", "stratum": "main", "ks": [0], "rewriters": ["NoOpRewriter"], "flags": ["default"],
+     "literal": {"source": "\ndef hot(v):\n    return v\n", "funcs": [["hot", "plain"]],
+                 "plan": [{"qual": "hot", "access": "hot", "args": ["1"], "kwargs": {}, "flavor": "plain", "kind": "module"}] * 2300
+                 + [{"qual": "hot", "access": "hot", "args": ["'s'"], "kwargs": {}, "flavor": "plain", "kind": "module"}]}})
+
+
 def run(ck):
     quick = ck.tier == "quick"
     specs = PINNED + program_specs(ck, 32 if quick else 600)
